@@ -38,10 +38,59 @@ main :- halt.
 """
 
 
+CANON_OPS2 = [":-", "-->", "','", ";", "->", "'|'", "=", "+", "*", "-", "is", "@<", "^", "**", "mod", ":"]
+CANON_OPS1 = ["-", "\\+", ":-", "dynamic", "+", "?-"]
+
+
+def canonical_terms():
+    """terms written in functional notation with minimal quoting: write_canonical must reproduce the text"""
+    ts = []
+    for o in CANON_OPS2:
+        ts += ["%s(a,b)" % o, "f(%s(a,b))" % o, "%s(%s(a,b),c)" % (o, o), "%s(a,%s(b,c))" % (o, o), "f(%s(1,-(2)))" % o, "g(x,%s(a,b),y)" % o]
+    for o in CANON_OPS1:
+        ts += ["%s(a)" % o, "f(%s(a))" % o, "%s(%s(a))" % (o, o), "%s(+(a,b))" % o, "+(%s(a),b)" % o, "f(%s(1))" % o]
+    ts += ["f(:-(a,','(b,c)))", "-(-(1))", "-(a)", "1-(2)" if False else "-(1,2)", "f(;(->(a,b),c))", "*(+(a,b),-(c))", "'$VAR'(1)", "f('$VAR'(3),-(a))"]
+    return ts
+
+
+CANON_HEAD = r"""
+t(I, T) :- write(I), write(' '), write_canonical(T), nl.
+main :- g(I, T), t(I, T), fail.
+main :- halt.
+:- initialization(main).
+"""
+
+
+def replay_canonical(binary, scratch, log):
+    ts = canonical_terms()
+    path = os.path.join(scratch, "replay_canonical.pl")
+    with open(path, "w", encoding="utf-8") as f:
+        for i, t in enumerate(ts):
+            f.write("g(%d, %s).\n" % (i, t))
+        f.write(CANON_HEAD)
+    p = subprocess.run([binary, "-f", "--no-add-history", path], capture_output=True, text=True, timeout=300, stdin=subprocess.DEVNULL)
+    got = {}
+    for line in p.stdout.split("\n"):
+        m = re.match(r"(\d+) (.*)$", line)
+        if m:
+            got[int(m.group(1))] = m.group(2)
+    fails = []
+    for i, t in enumerate(ts):
+        if i in got and got[i] != t:
+            fails.append({"goal": "write_canonical(%s)" % t, "got": ["v", got[i]], "expected": ["v", t], "op": "write_canonical", "a": t, "b": None})
+    log.append("write_canonical replay over %d terms: %d disagreements (%d answers)" % (len(ts), len(fails), len(got)))
+    return fails if len(got) >= len(ts) // 2 else None
+
+
 def replay_all(repo, by_ob, scratch, log):
     binary = replay_arith.build_binary(repo, log)
     if not binary:
         return {ob: None for ob in by_ob}
+    os.makedirs(scratch, exist_ok=True)
+    if all(("format_clause" in ob or "handle_op_as_struct" in ob or "is_numbered_var" in ob) for ob in by_ob):
+        fails = replay_canonical(binary, scratch, log)
+        return {ob: fails for ob in by_ob}
+    sweep_canon = replay_canonical(binary, scratch, log) if any(ob.startswith("sweep::") for ob in by_ob) else []
     atoms = [""] if False else []
     for n in (1, 2, 3):
         for t in itertools.product(ALPHABET, repeat=n):
@@ -72,7 +121,7 @@ def replay_all(repo, by_ob, scratch, log):
     if len(got) < len(atoms) // 2:
         log.append("replay program produced too few answers: " + (p.stderr or "")[-400:])
         return {ob: None for ob in by_ob}
-    return {ob: fails for ob in by_ob}
+    return {ob: fails + (sweep_canon or []) for ob in by_ob}
 
 
 def rerun(rec, repo):
